@@ -481,3 +481,19 @@ Proof.
   specialize (IH vs1 W). destruct (run c vs1 tl) as [vs2 rs]. simpl in *.
   constructor; assumption.
 Qed.
+
+(* the node-record entry decoder with the length test never panics, whatever a peer puts in its record *)
+Lemma decode_domain_type_total : forall bs, decode_domain_type true bs <> None.
+Proof. intros bs. unfold decode_domain_type. destruct (Nat.ltb (length bs) 4); discriminate. Qed.
+
+Lemma decode_domain_type_spec : forall bs,
+  (length bs < 4)%nat /\ decode_domain_type true bs = Some None \/
+  (4 <= length bs)%nat /\ decode_domain_type true bs = Some (Some (firstn 4 bs)).
+Proof.
+  intros bs. unfold decode_domain_type. destruct (Nat.ltb (length bs) 4) eqn:E.
+  - left. apply Nat.ltb_lt in E. auto.
+  - right. apply Nat.ltb_ge in E. auto.
+Qed.
+
+Lemma decode_domain_type_unchecked_refuted : decode_domain_type false [1; 2]%N = None.
+Proof. reflexivity. Qed.
